@@ -66,11 +66,22 @@ func (x *Exec) callStatic(st *State, ret *ssa.Call, callee *ssa.Function, args [
 		setResult(x.builderCall(st, callee.Name(), args, site))
 		return
 	}
+	if callee.Name() == "init" && callee.Signature.Recv() == nil && callee.Synthetic != "" {
+		// initialisation of an imported package: its effects are confined to its own globals
+		setResult(Val{})
+		return
+	}
 	if !isRepoFn(callee) {
 		setResult(x.stdlib(st, callee, args, site))
 		return
 	}
 	if con := x.w.Contracts[key]; con != nil && !con.Inline {
+		if con.SameAs != "" {
+			if t := x.w.Contracts[con.SameAs]; t != nil && x.w.Funcs[con.SameAs] != nil {
+				setResult(x.callContract(st, t, x.w.Funcs[con.SameAs], args, nil, site))
+				return
+			}
+		}
 		setResult(x.callContract(st, con, callee, args, binds, site))
 		return
 	}
@@ -325,7 +336,115 @@ func (x *Exec) callInterface(st *State, cc *ssa.CallCommon, recv Val, args []Val
 }
 
 func (x *Exec) callFuncValue(st *State, cc *ssa.CallCommon, fv Val, args []Val, setResult func(Val), site string) {
-	panic(unsupported("call through function value at " + site))
+	k := x.provenance(st.top().fn, cc.Value, 0)
+	if k == "" {
+		panic(unsupported("call through a function value of unknown contract at " + site + " (declare a fieldcontract / funcvar)"))
+	}
+	if k == "passthrough" {
+		// plugin interceptor hypothesis (property C04): interceptor(x, next) behaves exactly like next()
+		if len(cc.Args) < 2 {
+			panic(unsupported("passthrough call needs (subject, next)"))
+		}
+		mc, ok := cc.Args[len(cc.Args)-1].(*ssa.MakeClosure)
+		if !ok {
+			panic(unsupported("passthrough call whose next argument is not a function literal at " + site))
+		}
+		var binds []Val
+		for _, b := range mc.Bindings {
+			binds = append(binds, x.val(st, b))
+		}
+		fr := st.top()
+		var ret *ssa.Call
+		if c, isCall := fr.block.Instrs[fr.idx].(*ssa.Call); isCall {
+			ret = c
+		}
+		x.callStatic(st, ret, mc.Fn.(*ssa.Function), nil, binds, setResult, site, ret == nil)
+		return
+	}
+	con := x.w.Contracts[k]
+	callee := x.w.Funcs[k]
+	if con == nil || callee == nil {
+		panic(unsupported("contract " + k + " named by a fieldcontract/funcvar does not exist"))
+	}
+	setResult(x.callContract(st, con, callee, args, nil, site))
+}
+
+// provenance: the contract a function value is known to satisfy, from where it comes from ("" = unknown).
+func (x *Exec) provenance(f *ssa.Function, v ssa.Value, depth int) string {
+	if depth > 6 {
+		return ""
+	}
+	resolve := func(key string) string {
+		if c := x.w.Contracts[key]; c != nil && c.SameAs != "" {
+			return c.SameAs
+		}
+		return key
+	}
+	unitCon := x.w.Contracts[fnKey(x.w.pkgOfFn(f), f)]
+	for g := f; (unitCon == nil || unitCon.FuncVars == nil) && g.Parent() != nil; {
+		g = g.Parent()
+		unitCon = x.w.Contracts[fnKey(x.w.pkgOfFn(g), g)]
+	}
+	switch v := v.(type) {
+	case *ssa.Function:
+		return resolve(fnKey(x.w.pkgOfFn(v), v))
+	case *ssa.MakeClosure:
+		fn := v.Fn.(*ssa.Function)
+		return resolve(fnKey(x.w.pkgOfFn(fn), fn))
+	case *ssa.Parameter:
+		if unitCon != nil {
+			return unitCon.FuncVars[v.Name()]
+		}
+	case *ssa.FreeVar:
+		if unitCon != nil {
+			return unitCon.FuncVars[v.Name()]
+		}
+	case *ssa.ChangeType:
+		return x.provenance(f, v.X, depth+1)
+	case *ssa.Lookup:
+		if u, ok := v.X.(*ssa.UnOp); ok {
+			if fa, ok := u.X.(*ssa.FieldAddr); ok {
+				return fieldContracts[fieldName(fa)+"[]"]
+			}
+		}
+	case *ssa.Extract:
+		return x.provenance(f, v.Tuple, depth+1)
+	case *ssa.UnOp:
+		switch a := v.X.(type) {
+		case *ssa.FieldAddr:
+			return fieldContracts[fieldName(a)]
+		case *ssa.FreeVar:
+			if unitCon != nil {
+				return unitCon.FuncVars[a.Name()]
+			}
+		case *ssa.Alloc:
+			// a local variable: every store into it must agree
+			if unitCon != nil && unitCon.FuncVars[a.Comment] != "" {
+				return unitCon.FuncVars[a.Comment]
+			}
+			k := ""
+			for _, ref := range *a.Referrers() {
+				if s, ok := ref.(*ssa.Store); ok && s.Addr == a {
+					p := x.provenance(f, s.Val, depth+1)
+					if p == "" || (k != "" && k != p) {
+						return ""
+					}
+					k = p
+				}
+			}
+			return k
+		}
+	}
+	return ""
+}
+
+func fieldName(fa *ssa.FieldAddr) string {
+	st := fa.X.Type().Underlying().(*types.Pointer).Elem()
+	nt, ok := st.(*types.Named)
+	if !ok {
+		return ""
+	}
+	return nt.Obj().Pkg().Name() + "." + nt.Obj().Name() + "." + st.Underlying().(*types.Struct).Field(fa.Field).Name()
 }
 
 // builtins -----------------------------------------------------------------------------------
